@@ -631,7 +631,7 @@ func tokenIDFromName(ctx, name) (r)
 
 /*@
 module admin
-props C11
+props C03 C11
 use nns state
 dialect neovm
 
